@@ -107,6 +107,9 @@ def shard(task):
       best = {'interior': 0.3, 'corner': 1.0, 'categorical': 0.5, 'plateau': 0.0, 'neginf-region': 0.0, 'constant': 0.5, 'posinf-region': 0.95, 'neginf-almost-everywhere': 0.5}[cfg['score']]
       for k in range(cfg['prior']):
         params = {'x%d' % i: (best if k == 0 else 0.9 - 0.1 * k) for i in range(nc)}
+        if cfg.get('prior_out') and k < 2:
+          # a prior point from an older, wider search space: outside the unit cube after conversion (above for k = 0, below for k = 1)
+          params = {'x%d' % i: (1.4 if k == 0 else -0.3) for i in range(nc)}
         params.update({'c%d' % j: (str(sz - 1) if k == 0 else '0') for j, sz in enumerate(cats)})
         prior_trials.append(vz.Trial(parameters=params))
       prior = conv.to_features(prior_trials)
@@ -148,7 +151,7 @@ def shard(task):
           ok = np.all((want == R) | (np.isfinite(want) & np.isfinite(R) & (np.abs(want - R) <= 1e-6)))
         if not ok:
           found.append(('reward-not-the-score', 'reported rewards %s, score at the returned candidates %s' % (R.tolist(), want.tolist())))
-        if prior_trials:
+        if prior_trials and not cfg.get('prior_out'):
           pf = conv.to_features(prior_trials)
           ps_ = score_np(cfg['score'], np.asarray(pf.continuous.padded_array), np.asarray(pf.categorical.padded_array), nc, cats)
           if np.max(R) < np.max(ps_) - 1e-9:
@@ -195,6 +198,13 @@ def configs(quick, seed):
       for evals in ([100] if quick else [100, 400]):
         for prior in ([0] if quick else [0, 3]):
           out.append({'layout': [layout[0], list(layout[1])], 'pad': False, 'strategy': 'eagle', 'count': 3, 'batch': 5, 'evals': evals, 'prior': prior,
+                      'n_parallel': None, 'score': score, 'seed': seed + 1})
+  # prior points lying outside the unit cube (trials of a wider space): the result must still be in bounds, with honest rewards
+  for layout in ([LAYOUTS[4], LAYOUTS[5]] if quick else LAYOUTS[1:]):
+    for strat in ('eagle', 'random'):
+      for score in ('corner', 'interior') if quick else ('corner', 'interior', 'plateau', 'neginf-region'):
+        for count in (1, 3):
+          out.append({'layout': [layout[0], list(layout[1])], 'pad': False, 'strategy': strat, 'count': count, 'batch': 5, 'evals': 20 if quick else 100, 'prior': 3, 'prior_out': True,
                       'n_parallel': None, 'score': score, 'seed': seed + 1})
   for c in out:
     c['layout'] = (c['layout'][0], tuple(c['layout'][1]))
